@@ -12,6 +12,7 @@ type ProtocolDetectConn struct {
 	net.Conn
 	major, minor uint8  // 协议版本
 	recordHeader []byte // 客户端Hello消息的记录层协议头部
+	headerRead   int    // recordHeader 中已读取的字节数
 }
 
 // protocolVersion 连接所使用的协议版本
@@ -32,8 +33,14 @@ func (c *ProtocolDetectConn) ReadFirstHeader() error {
 	//  uint16          length;							// 2 Byte
 	//  opaque          fragment[TLSPlaintext.length];  // length Byte
 	//}
-	c.recordHeader = make([]byte, 5)
-	_, err := io.ReadFull(c.Conn, c.recordHeader)
+	// 读取失败后（如读超时）再次调用时，继续读取剩余部分，
+	// 防止已读取的字节丢失导致后续字节被误当作记录头。
+	if c.recordHeader == nil || c.headerRead > len(c.recordHeader) {
+		c.recordHeader = make([]byte, 5)
+		c.headerRead = 0
+	}
+	n, err := io.ReadFull(c.Conn, c.recordHeader[c.headerRead:])
+	c.headerRead += n
 	c.major, c.minor = c.recordHeader[1], c.recordHeader[2]
 	return err
 }
